@@ -3,13 +3,13 @@ never added to `discharged`. A concrete failing input found here is a genuine vi
 import enumerators
 
 
-def run(name, prop, seed):
+def run(name, prop, seed, table=None):
     assert name == "replay"
     ok, err = enumerators.build()
     if not ok:
         return {"coverage": {"error": err[-300:]}, "inconclusive": "replay crate does not build offline against the current tree"}
     runs, viol = [], []
-    for c in enumerators.THOROUGH.get(prop, []):
+    for c in (table or enumerators.THOROUGH).get(prop, []):
         r = enumerators.run_cmd(c)
         runs.append({"cmd": "verif-replay " + " ".join(c), "cases": r.get("cases", 0), "violations": len(r.get("violations", [])), "bounded": True,
                      "error": r.get("error")})
